@@ -10,6 +10,7 @@ import random
 from decimal import Decimal
 
 ID = 'C09'
+TECHNIQUE = 'trace monitor: ordered probe log at every leaf vs the specified evaluation order R5, all truth assignments and raising positions'
 RULE = ('expression shapes built from {14 binary operators, and, or, not, unary -, if-else, host call, method call, pipe call, list, dict, index, 8 slice forms, '
         'program-lambda call, index assignment, compound index assignment, name assignment, compound name assignment} nested up to 3 levels with a probe '
         't(i) at every leaf (<= 9 probes); for shapes with k <= 6 probes all 2^k truth assignments, otherwise 64 random ones; every probe position as '
